@@ -161,6 +161,10 @@ type c17Own struct {
 	u     *c17Unit
 	vals  map[ssa.Value]bool // values that are the owner address (parameter, by-value captures)
 	cells map[ssa.Value]bool // heap cells (captured variables) that only ever hold the owner address
+	// preds: function-valued parameters that are bound, at the call site analysed, to a
+	// predicate which is true only for the owner (owner.Equal, func(ip) bool { return
+	// ip.Equal(owner) }): calling one is an ownership test (removeFirst(owners, owner.Equal))
+	preds map[ssa.Value]bool
 }
 
 // c17NewOwn seeds the owner set with parameters of the unit's top function (or
@@ -256,6 +260,48 @@ func (o *c17Own) forCallee(c *ssa.CallCommon, callee *ssa.Function) *c17Own {
 
 type c17OwnerTest struct {
 	p interface{ InModule(*ssa.Function) bool }
+	// unread: places where the decision may depend on the owner through code the test does
+	// not model (a call through a function value that is not a known owner predicate, a
+	// helper chain beyond the depth bound). While non-empty, "never compared" is not a
+	// positive observation.
+	unread []string
+}
+
+func (t *c17OwnerTest) noteUnread(f string, a ...any) {
+	if len(t.unread) < 8 {
+		t.unread = append(t.unread, fmt.Sprintf(f, a...))
+	}
+}
+
+// forCallee maps the owner AND owner predicates into a declared callee.
+func (t *c17OwnerTest) forCallee(o *c17Own, cc *ssa.CallCommon, callee *ssa.Function, depth int) *c17Own {
+	if o == nil {
+		return nil
+	}
+	co := o.forCallee(cc, callee)
+	if co == o {
+		return co
+	}
+	for k, a := range cc.Args {
+		if k >= len(callee.Params) {
+			break
+		}
+		if _, isFn := a.Type().Underlying().(*types.Signature); !isFn {
+			continue
+		}
+		isPred := o.preds[o.u.resolve(a)] || t.predOwnerTrue(a, o, depth)
+		if !isPred {
+			continue
+		}
+		if co == nil {
+			co = c17NewOwn(callee, nil)
+		}
+		if co.preds == nil {
+			co.preds = map[ssa.Value]bool{}
+		}
+		co.preds[callee.Params[k]] = true
+	}
+	return co
 }
 
 const c17HelperDepth = 3
@@ -363,6 +409,14 @@ func (t *c17OwnerTest) ownerTrue(v ssa.Value, o *c17Own, seen map[ssa.Value]bool
 	cc := call.Common()
 	f := cc.StaticCallee()
 	if f == nil {
+		if !cc.IsInvoke() {
+			if o.preds[o.u.resolve(cc.Value)] {
+				return true // match(v) with match bound to an owner predicate
+			}
+			if _, isB := cc.Value.(*ssa.Builtin); !isB {
+				t.noteUnread("the result of a call through a function value decides a branch in %s", call.Parent().Name())
+			}
+		}
 		return false
 	}
 	switch c17CalleeName(f) {
@@ -402,7 +456,10 @@ func (t *c17OwnerTest) ownerTrue(v ssa.Value, o *c17Own, seen map[ssa.Value]bool
 		return len(cc.Args) == 2 && t.predOwnerTrue(cc.Args[1], o, depth)
 	}
 	if t.declared(f) && depth < c17HelperDepth {
-		return t.returnsOwnerTrue(f, idx, o.forCallee(cc, f), depth+1)
+		return t.returnsOwnerTrue(f, idx, t.forCallee(o, cc, f, depth), depth+1)
+	}
+	if t.declared(f) {
+		t.noteUnread("helper chain deeper than %d calls at %s", c17HelperDepth, f.Name())
 	}
 	return false
 }
@@ -490,7 +547,7 @@ func (t *c17OwnerTest) ownerIndex(v ssa.Value, o *c17Own, seen map[ssa.Value]boo
 	if !t.declared(f) {
 		return nil, false
 	}
-	co := o.forCallee(cc, f)
+	co := t.forCallee(o, cc, f, depth)
 	if co == nil {
 		return nil, false
 	}
@@ -836,7 +893,7 @@ func c17OwnerGate(c *Ctx) {
 		if o == nil {
 			return (*c17Own)(nil)
 		}
-		return o.forCallee(cc, callee)
+		return test.forCallee(o, cc, callee, 0)
 	}
 	// entries: the exported owner-taking methods first, then every other owner-taking
 	// method that no analysed entry reaches (so that no method escapes the rule)
@@ -857,6 +914,7 @@ func c17OwnerGate(c *Ctx) {
 	nMethods := 0
 	analysed := map[string]int{}
 	judge := func(fn *ssa.Function) {
+		test.unread = nil
 		w := c17NewWalker(p, fn.Pkg, calleeCtx)
 		own := c17NewOwn(fn, ownerParams(fn))
 		w.walk(fn, own, nil, nil, 0)
@@ -899,6 +957,10 @@ func c17OwnerGate(c *Ctx) {
 			}
 			if where != "" {
 				r.OK(rule, key, p.Rel(m.in.Pos()), "dominated by the positive outcome of an ownership comparison with "+oname+" (established in "+where+")")
+			} else if len(test.unread) > 0 {
+				un := strings.Join(uniqStrings(test.unread), "; ")
+				r.OK(rule, key, p.Rel(m.in.Pos()), "NOT DECIDED — no ownership comparison was recognised on the way to this modification, but the decision runs through code the rule does not read: "+un)
+				r.Note("C17 owner-gate: %s NOT DECIDED — %s", key, un)
 			} else {
 				r.Fail(rule, key, p.Rel(m.in.Pos()), "the table is modified on a path that never compared a stored owner with "+oname+": an address that does not own the name can change or remove it")
 			}
